@@ -147,7 +147,7 @@ CHECKS = {
              "2r = a or a+n.  mul_mod is decided for every operand triple with a < n, b < n by induction over its recursion: no unsigned wrap, no division by zero, the recursive call meets the same precondition with the same modulus and a strictly smaller first operand, the result lies in [0, n) and result - a*b is a polynomial multiple of n (products / quotients by non-constants are terms constrained by axioms that hold for all non-negative integers).  pow_mod under n >= 2: an inductive loop invariant is inferred under which every mul_mod call meets its precondition and the result lies in [0, n) - that it equals base^exp is not decided.  Also decided (typestate rule on find_prime_factor's own IR, no inlining): every value that can reach its `ret` traces "
              "back, through phis / selects / casts, to an entry of the table of first primes (entries checked to be exactly the first primes), "
              "to a recursive result, to a value on an edge reachable only through a true is_prime(value), or to n chosen because p*p > n inside "
-             "the trial division - never to an unchecked result of the rho search.  Explored, not decided: the statement's consequence clause, which is about types - decltype(mag<N>()) is the canonical "
+             "the trial division - never to an unchecked result of the rho search.  A second rule of the same kind for divisibility: every value find_prime_factor and find_pollard_rho_factor can return traces to n itself, to gcd(n, .), to a table entry on an edge taken only when n % p == 0, or to the factor finder applied to such a value (gcd's own contract assumed); and a product rule over the whole primality call tree (28 functions): no multiplication of two unbounded run-time values outside mul_mod.  Explored, not decided: the statement's consequence clause, which is about types - decltype(mag<N>()) is the canonical "
              "factorisation, mag<a>()*mag<b>() is mag<a*b>(), Prime<N> of a composite N is refused - as programs that must / must not build, "
              "for adversarial and seeded N with factorisations from independent Python integer arithmetic (strong base-2 pseudoprimes incl. those "
              "without a factor below 541, strong Lucas pseudoprimes, Carmichael numbers, prime squares / cubes, semiprimes with factors next to "
